@@ -54,6 +54,12 @@ Match(a, b) ==
        [] a.e \in {"Disp", "CSigBegin", "FwdBegin"} -> TRUE
        [] OTHER -> TRUE
 
+(* position (0: none) of an expected predicate evaluation equal to e within the run of evaluations at the head of exp *)
+PredAt(ex, e) ==
+  LET run == {i \in 1..Len(ex) : \A j \in 1..i : ex[j].e = "Pred"}
+      hit == {i \in run : Match(ex[i], e)}
+  IN IF hit = {} THEN 0 ELSE CHOOSE i \in hit : \A j \in hit : i <= j
+
 ProgIdx == {x \in 1..Len(Tr) : Tr[x].e = "Prog"}
 NextProg(x) == LET later == {y \in ProgIdx : y > x} IN
                IF later = {} THEN Len(Tr) + 1 ELSE CHOOSE y \in later : \A z \in later : y <= z
@@ -104,7 +110,12 @@ CNext ==
        ELSE IF exp # <<>>
          THEN IF Match(Head(exp), e)
                 THEN l' = l + 1 /\ exp' = Tail(exp) /\ UNCHANGED <<code, ok, k>>
+              ELSE IF e.e = "Pred" /\ Head(exp).e = "Pred" /\ PredAt(exp, e) > 0
+                \* one pass of predicate evaluations walks the heap array, whose order is unspecified: compared as a set
+                THEN l' = l + 1 /\ exp' = [i \in 1..(Len(exp) - 1) |-> IF i < PredAt(exp, e) THEN exp[i] ELSE exp[i + 1]]
+                     /\ UNCHANGED <<code, ok, k>>
                 ELSE /\ PrintT(<<"DRIFT", l, Head(exp).e, e.e>>)
+                     /\ PrintT(<<"EXPECTED", Head(exp)>>)
                      /\ l' = NextProg(l) /\ exp' = <<>> /\ ok' = FALSE /\ UNCHANGED <<code, k>>
        ELSE LET r == ModelStep(k) IN
             IF r.done /\ e.e \in {"Snap", "Hist"}
